@@ -171,6 +171,13 @@ func (m *Machine) callFrom(caller *frame, fn Value, args []Value, cc *ssa.CallCo
 		return m.callSSA(caller, fn.Fn, args, fn.Env)
 	case *ssa.Builtin:
 		return m.callBuiltin(caller, fn, args, cc)
+	case *Native:
+		switch fn.Kind {
+		case "rterr.Error":
+			return fn.X
+		case "rterr.RuntimeError":
+			return nil
+		}
 	}
 	panic(fmt.Sprintf("call: cannot call %T", fn))
 }
@@ -633,6 +640,9 @@ func (fr *frame) prepareCall(cc *ssa.CallCommon, pi *pinstr) (Value, []Value) {
 		if recv.T == nil {
 			fr.m.rtPanic("invalid memory address or nil pointer dereference (method on nil interface)")
 		}
+		if recv.T == fr.m.rtErrType {
+			return &Native{Kind: "rterr." + cc.Method.Name(), X: recv.V}, nil
+		}
 		f := fr.m.P.Prog.LookupMethod(recv.T, cc.Method.Pkg(), cc.Method.Name())
 		if f == nil {
 			panic(fmt.Sprintf("no method %s on %v", cc.Method.Name(), recv.T))
@@ -653,6 +663,9 @@ func (fr *frame) prepareCall(cc *ssa.CallCommon, pi *pinstr) (Value, []Value) {
 func (m *Machine) invoke(recv Iface, name string, args ...Value) Value {
 	if recv.T == nil {
 		m.rtPanic("invalid memory address or nil pointer dereference (method on nil interface)")
+	}
+	if recv.T == m.rtErrType && name == "Error" {
+		return recv.V
 	}
 	ms := m.P.Prog.MethodSets.MethodSet(recv.T)
 	for i := 0; i < ms.Len(); i++ {
@@ -709,7 +722,16 @@ func (m *Machine) typeAssert(instr *ssa.TypeAssert, x Iface) Value {
 	ok := false
 	var v Value
 	if it, isI := instr.AssertedType.Underlying().(*types.Interface); isI {
-		if x.T != nil {
+		if x.T != nil && x.T == m.rtErrType {
+			// engine-raised runtime errors behave like runtime.Error values: they implement
+			// error and runtime.Error
+			ok = true
+			for i := 0; i < it.NumMethods(); i++ {
+				if n := it.Method(i).Name(); n != "Error" && n != "RuntimeError" {
+					ok = false
+				}
+			}
+		} else if x.T != nil {
 			k := [2]types.Type{x.T, instr.AssertedType}
 			impl, have := m.identC[k]
 			if !have {
